@@ -459,4 +459,69 @@ def k8(ctx, kr):
     kr.exhaustive = True
     kr.outside = ['nesting deeper than 12; real stack depth of the native build (the interpreter has its own stack); wall-clock time of the native build']
 
-KERNELS = [k2, k3, k4, k5, k6, k7, k8]
+# ---------------------------------------------------------------------------------------------- K9 long lexemes made of multi-byte characters: no byte-indexed cut can land on a character boundary in every alignment
+LONG_KINDS = {
+    'unterminated_comment': lambda body: 'PROGRAM p\nEND_PROGRAM\n(*' + body,
+    'unterminated_string': lambda body: "PROGRAM p\nVAR\n  s : STRING := '" + body,
+    'comment': lambda body: '(*' + body + '*)\nPROGRAM p\nEND_PROGRAM\n',
+    'string_literal': lambda body: "PROGRAM p\nVAR\n  s : STRING := '" + body + "';\nEND_VAR\nEND_PROGRAM\n",
+    'invalid_characters': lambda body: 'PROGRAM p\nEND_PROGRAM\n' + body,
+    'syntax_error_at_long_string': lambda body: "PROGRAM p\n  '" + body + "'\nEND_PROGRAM\n",
+    'syntax_error_at_long_comment_free_text': lambda body: 'PROGRAM p\nVAR\n  x : INT;\nEND_VAR\n  x := 1 (*' + body + '*) 2;\nEND_PROGRAM\n',
+}
+def _k9_job(job):
+    kind, nchars = job
+    from . import C10 as K10
+    ctx = _CTX; part = Part()
+    P = ctx.program()
+    k_parse = P.find_fn('ironplc-parser', 'parse_program'); k_an = P.find_fn('ironplc-analyzer', 'stages::analyze')
+    k_opt = [k for k in P.items if k[0] == 'ironplc-parser' and re.search(r'ParseOptions as (std::default::)?Default>::default|options::<impl at [^>]*>::default', k[1])]
+    st = {}
+    M = Machine(P, stubs=K10.dyn_lexer_stubs(ctx, {}), max_steps=2_000_000_000)
+    M.toposort_deterministic = True
+    CH = ['é', '€', '\U0001F600']
+    def entry(M):
+        c = M.fresh_bv('char', 8); M.declare_domain(c, [0, 1, 2]); ci = 0 if M.branch(c == 0) else (1 if M.branch(c == 1) else 2)
+        sh = M.fresh_bv('shift', 8); M.declare_domain(sh, [0, 1, 2, 3]); shift = 0
+        for v in range(3):
+            if M.branch(sh == v): shift = v; break
+            shift = v + 1
+        # `shift` ASCII letters first: over the shifts every byte offset inside the lexeme is inside a character for some alignment
+        body = 'a' * shift + CH[ci] * nchars
+        text = LONG_KINDS[kind](body); st['src'] = text; st['what'] = (CH[ci], shift); st['stage'] = 'parse'
+        fid = Ref(Cell(Agg('FileId', [Str('f.st')])))
+        opts = Ref(Cell(M.call_fn(k_opt[0], []) if k_opt else Agg('ParseOptions', [False])))
+        r = M.call_fn(k_parse, [Ref(Cell(Str(text))), fid, opts])
+        if r.disc != 0: return 'rejected'
+        st['stage'] = 'analyze'
+        M.call_fn(k_an, [Ref(Cell(VecV([Ref(Cell(r.f[0]))])))])
+        return 'ok'
+    def on_path(M, pr):
+        part.paths += 1
+        src = st.get('src')
+        if pr.inconclusive: part.inconc('%s: %s' % (kind, pr.inconclusive)); return
+        part.nontrivial += 1
+        if pr.panic:
+            ch, shift = st['what']
+            part.add('C04/K9/%s/panic' % kind, '%s of %d characters U+%04X after %d ASCII letters: %s panics: %s' % (kind.replace('_', ' '), nchars, ord(ch), shift, 'parse_program' if st['stage'] == 'parse' else 'analyze', pr.panic.msg[:70]),
+                     {'kind': kind, 'character': 'U+%04X' % ord(ch), 'characters': nchars, 'shift': shift}, ('frontend_panic', (src,)))
+        elif len(part.validate) < 1: part.validate.append(('frontend_panic', (src,)))
+        if len(part.samples) < 1: part.samples.append({'kind': kind, 'bytes': len(src.encode()), 'outcome': pr.result if not pr.panic else 'panic'})
+    M.explore(entry, on_path)
+    part.queries += M.stats['smt']; part.encoded = set(M.encoded); part.models = set(M.models_used)
+    return part
+
+@kernel('K9 frontend.long_non_ascii_lexemes')
+def k9(ctx, kr):
+    global _CTX
+    _CTX = ctx
+    n = 300 if ctx.tier == 'quick' else 1400
+    kr.bounds = ('lexemes of %d multi-byte characters (U+00E9, U+20AC, U+1F600; preceded by 0..3 ASCII letters so that every byte offset up to %d falls inside a character in some alignment) as unterminated comment, unterminated string, '
+                 'comment, string literal, run of invalid characters, and as the offending token of a syntax error: parse_program and stages::analyze from the MIR return a result, no panic' % (n, 2 * n))
+    for part in par_map(_k9_job, [(k, n) for k in LONG_KINDS]): merge_part(kr, part)
+    P = ctx.program()
+    kr.functions = fn_paths(P, getattr(kr, '_enc', set()))[:150]
+    kr.exhaustive = True
+    kr.outside = ['longer lexemes (a cut beyond byte %d is not exercised)' % (2 * n)]
+
+KERNELS = [k2, k3, k4, k5, k6, k7, k8, k9]
